@@ -400,7 +400,7 @@ def oracle(ctx, deep=False, cal=False, only=None):
     rng = ctx.rng
     old_threads = numba.get_num_threads()
     numba.set_num_threads(max(1, min(old_threads, int(os.environ.get("VERIF_ORACLE_THREADS", "1")))))
-    budget = float(os.environ.get("C02_ORACLE_BUDGET_S", "0")) or (ctx.pick(120.0, 800.0) if not deep else 3000.0)
+    budget = float(os.environ.get("C02_ORACLE_BUDGET_S", "0")) or (ctx.pick(100.0, 780.0) if not deep else 3000.0)
     orders = (LOW_RUNGS if (ctx.thorough or deep) else []) + LADDER
     n_in, n_out = (ctx.pick(10, 24), ctx.pick(12, 30)) if not deep else (60, 80)
     n_fun = ctx.pick(2, 3) if not deep else 5
